@@ -226,6 +226,110 @@ def _default_escapes(model: Model, fi: FuncInfo, pname: str, depth: int, seen) -
     return (ret[0][0], ret[0][1]) if ret else None
 
 
+_MUTATORS = {"append", "extend", "insert", "pop", "remove", "clear", "update", "add", "discard", "setdefault", "popitem", "sort", "reverse", "appendleft", "popleft"}
+
+
+def _elements_clean(model: Model, meth: FuncInfo, loop) -> bool:
+    """the elements of a field iterated in a method: each use of the loop variable is a read, or an argument of a package
+    function that neither keeps nor changes it."""
+    from .model import parent as _parent
+
+    if not isinstance(loop.target, ast.Name):
+        return False
+    v = loop.target.id
+    for y in ast.walk(meth.node):
+        if isinstance(y, ast.Name) and y.id == v and isinstance(y.ctx, ast.Load):
+            p_ = _parent(y)
+            if isinstance(p_, (ast.Attribute, ast.Subscript, ast.Compare, ast.BoolOp, ast.UnaryOp, ast.If, ast.IfExp, ast.FormattedValue, ast.BinOp)) and not isinstance(getattr(p_, "ctx", None), (ast.Store, ast.Del)):
+                if isinstance(p_, ast.Attribute) and isinstance(_parent(p_), ast.Call) and _parent(p_).func is p_ and p_.attr in _MUTATORS:
+                    return False
+                continue
+            if isinstance(p_, ast.Call) and y in p_.args and isinstance(p_.func, ast.Name):
+                if p_.func.id in _READ_ONLY_CALLS:
+                    continue
+                g = model.lookup_target(model.resolve_dotted(meth.module, meth, p_.func.id))
+                i_ = p_.args.index(y)
+                if isinstance(g, FuncInfo) and i_ < len(g.pos_params) and not [u for u in _param_uses(model, g, g.pos_params[i_], 2, frozenset()) if u[2] != "returned"]:
+                    continue
+            return False
+    return True
+
+
+def _record_fields(tgt) -> Optional[List[str]]:
+    """constructor parameter -> field, in order: a dataclass-style body of annotated names, or an __init__ whose
+    parameters are stored under their own names."""
+    init = tgt.methods.get("__init__")
+    if init is None:
+        return [s_.target.id for s_ in tgt.node.body if isinstance(s_, ast.AnnAssign) and isinstance(s_.target, ast.Name)] or None
+    ps = init.pos_params[1:]
+    sn = init.pos_params[0]
+    stored = {s_.targets[0].attr: s_.value.id for s_ in ast.walk(init.node) if isinstance(s_, ast.Assign) and len(s_.targets) == 1 and isinstance(s_.targets[0], ast.Attribute) and isinstance(s_.targets[0].value, ast.Name) and s_.targets[0].value.id == sn and isinstance(s_.value, ast.Name)}
+    if all(stored.get(p_) == p_ for p_ in ps):
+        return ps
+    return None
+
+
+def _transient_inert_record(model: Model, fi: FuncInfo, call: ast.Call, idx: Optional[int] = None, kwname: Optional[str] = None) -> bool:
+    """`_Rec(a, b).method(x)` (or `r = _Rec(a, b)` with r only read through attributes / methods): the object does not
+    outlive the activation, and the class - a private one of the package - is inert: its methods store nothing anywhere
+    (outside __init__'s own fields), call no mutators, and never put a field itself into a container, a call of
+    something outside the package's read-only helpers, or a return value."""
+    from .model import ClassInfo
+    from .model import parent as _parent
+
+    tgt = model.lookup_target(model.resolve_dotted(fi.module, fi, call.func.id))
+    if not isinstance(tgt, ClassInfo) or not tgt.name.startswith("_") or tgt.name.startswith("__") or model.is_visitor(tgt):
+        return False
+    par = _parent(call)
+    transient = isinstance(par, ast.Attribute) and isinstance(_parent(par), ast.Call) and _parent(par).func is par
+    if not transient and isinstance(par, ast.Assign) and len(par.targets) == 1 and isinstance(par.targets[0], ast.Name):
+        nm = par.targets[0].id
+        loads = [n for n in own_nodes(fi) if isinstance(n, ast.Name) and n.id == nm and isinstance(n.ctx, ast.Load)]
+        transient = bool(loads) and all(isinstance(_parent(n), ast.Attribute) for n in loads)
+    if not transient:
+        return False
+    fields = _record_fields(tgt) or []
+    the_field = kwname if kwname in fields else (fields[idx] if idx is not None and idx < len(fields) and not any(isinstance(a, ast.Starred) for a in call.args[: idx + 1]) else None)
+    for meth in tgt.methods.values():
+        if not meth.pos_params:
+            return False
+        sn = meth.pos_params[0]
+        for x in ast.walk(meth.node):
+            if isinstance(x, (ast.Global, ast.Nonlocal)):
+                return False
+            if isinstance(x, (ast.Attribute, ast.Subscript)) and isinstance(x.ctx, (ast.Store, ast.Del)):
+                if not (meth.name == "__init__" and isinstance(x, ast.Attribute) and isinstance(x.value, ast.Name) and x.value.id == sn):
+                    return False
+            if isinstance(x, ast.Call) and isinstance(x.func, ast.Attribute) and x.func.attr in _MUTATORS:
+                return False
+            if isinstance(x, ast.Attribute) and isinstance(x.ctx, ast.Load) and isinstance(x.value, ast.Name) and x.value.id == sn:
+                if the_field is not None and x.attr != the_field and x.attr in fields:
+                    continue  # another field: does not hold the value in question
+                p_ = _parent(x)
+                if isinstance(p_, (ast.comprehension, ast.For)) and p_.iter is x:
+                    if not _elements_clean(model, meth, p_):
+                        return False
+                    continue
+                # the field itself may be read, iterated, indexed, compared, formatted - not stored, splatted or handed on
+                if isinstance(p_, (ast.Attribute, ast.Subscript, ast.comprehension, ast.For, ast.Compare, ast.BoolOp, ast.UnaryOp, ast.If, ast.IfExp, ast.FormattedValue, ast.BinOp)):
+                    continue
+                if isinstance(p_, ast.Call) and x in p_.args:
+                    fn = p_.func
+                    if isinstance(fn, ast.Name):
+                        if fn.id in _READ_ONLY_CALLS:
+                            continue
+                        g = model.lookup_target(model.resolve_dotted(meth.module, meth, fn.id))
+                        if isinstance(g, FuncInfo):
+                            i_ = p_.args.index(x)
+                            if i_ < len(g.pos_params) and not [u for u in _param_uses(model, g, g.pos_params[i_], 2, frozenset()) if u[2] != "returned"]:
+                                continue
+                    return False
+                if isinstance(p_, ast.Call) and p_.func is x:
+                    continue
+                return False
+    return True
+
+
 def _param_uses(model: Model, fi: FuncInfo, pname: str, depth: int, seen) -> List[Tuple[ast.AST, str, str]]:
     from .model import parent as _parent
 
@@ -355,6 +459,8 @@ def _param_uses(model: Model, fi: FuncInfo, pname: str, depth: int, seen) -> Lis
                 if kind != "returned":
                     out.append((st, f"is passed to {callee.name}, where it {why}", kind))
             continue
+        if isinstance(f, ast.Name) and _transient_inert_record(model, fi, par_call, idx, kwname):
+            continue  # a private record object that lives for one expression and whose methods only read what it holds
         out.append((st, f"is handed to {ast.unparse(f)}(..), which may keep it (a constructed node / object holds the one shared default object)", "stored"))
     return out
 
